@@ -29,7 +29,8 @@ from props import _g5_common as g5
 LEVEL = 'exploration'
 ENGINE = 'E2 diffexplore'
 TECHNIQUE = 'exhaustive skeleton enumeration with logging leaves and logging objects; ordered event log of the compiled function compared with CPython on identical source'
-LEVEL_TEXT = ('Every syntactically valid call layout of <= 4 argument slots over {positional, *, keyword, **}, every and/or/not '
+LEVEL_TEXT = ('Every syntactically valid call layout of <= 4 argument slots over {positional, *, keyword, **}, every positional-'
+              'prefix/keyword-permutation layout of calls to 3- and 4-parameter cdef (@cython.cfunc) callees, every and/or/not '
               'tree with <= 3 leaves under every truth assignment, and a table of ~120 assignment/subscript/attribute/'
               'augmented/chained/unpacking/swap/display/comparison/del/assert/raise/with skeletons are compiled with logging '
               'leaves; thorough adds C-typed leaves and every ordered pair of expression skeletons nested once.  The ordered '
